@@ -37,7 +37,7 @@ _claim('C03',
        "C03.R1 residual invariant for the layer loops of sift, mask_sift, complete_ensemble_sift; C03.R2 the cap reaches "
        "the extraction only in length positions; C03.R3 affine counter relation of every cap guard simulated for cap=1..8 "
        "(columns <= cap, guard reachable, guard stops the loop); C03.R4 member column indexing bounded by the smallest "
-       "member; C03.R5 second-layer loop range and ** of a dict; C03.R6 canonicalisation of the signal; C03.R7 a cap is never written into the caller's option dict; C03.R8 no clobbering of a stored component through aliasing.",
+       "member; C03.R5 second-layer loop range and ** of a dict; C03.R11 (also C01.R1 / C04.R1) running arrays bound to an input or a plain copy of one are not updated by in-place arithmetic (which would keep the caller's dtype: casting error for integers, per-layer rounding for float32); C03.R6 canonicalisation of the signal; C03.R7 a cap is never written into the caller's option dict; C03.R8 no clobbering of a stored component through aliasing.",
        "finiteness of outputs for finite inputs.",
        "path-sensitive abstract interpretation + polynomial normal forms + affine counter model")
 _claim('C04',
@@ -125,13 +125,13 @@ _claim('C10',
        "C10.R1 class-by-class evaluation of row index, keep filter and value of hilberthuang and of the loop of "
        "hilberthuang_1d over the digitize index classes (below / in(k) / at-last-edge / above / nan) for E = 2,3,5; "
        "C10.R2 sibling agreement of the two maps; C10.R3 energy exponent, dense = toarray(sparse); C10.R4 bin definition (edges by scale; centres interpreted on five exact rational edge vectors as the midpoints of consecutive edges); "
-       "C10.R5 dimension checks present, L1 library attributes resolve; C10.R6 ensure_2d contract (shape classes, values untouched). Recognisably wrong constructions are reported as violations, not as analysis errors: swapped np.digitize arguments, COO coordinates taken from the wrong vector, a keep-filter that tests the time coordinate or input values, reductions over the wrong axis, impossible reshapes, a time coordinate that the small array model shows not to be the sample index, wrong reducers / exponents, mis-spaced or rejected scales, 1-D allocation and IMF loop.",
+       "C10.R5 dimension checks present, L1 library attributes resolve; C10.R6 ensure_2d contract (shape classes, values untouched); C10.R7 no flattening in memory order (order K/A/F) and no cast of bin indices to 8/16-bit integers. Recognisably wrong constructions are reported as violations, not as analysis errors: swapped np.digitize arguments, COO coordinates taken from the wrong vector, a keep-filter that tests the time coordinate or input values, reductions over the wrong axis, impossible reshapes, a time coordinate that the small array model shows not to be the sample index, wrong reducers / exponents, mis-spaced or rejected scales, 1-D allocation and IMF loop.",
        "floating-point summation order of duplicate sparse entries.",
        "finite abstract domain of digitize index classes with elementwise transfer functions")
 _claim('C11',
        "C11.R1 fold/unfold arithmetic of holospectrum evaluated over every pair of digitize classes (E1 in {2,3}, E2 in "
        "{2,4}): folded index fits the width, unfolds to [AM, carrier], the trim removes exactly the out-of-range classes; "
-       "C11.R2 squash table over the same accumulation (sum / count forms of the mean with the count classified); C11.R3 exponent and dimension checks; C11.R4 ensure_2d contract; L1. C11.R1 also evaluates the whole returned expression in a small row-major array model for two input shapes with opaque values: numpy's own shape errors (operands that do not broadcast, coordinate vectors of different lengths, impossible reshapes) and a result that is not [time x AM x carrier] / [AM x carrier] are violations; the time coordinate must list the sample index element by element.",
+       "C11.R2 squash table over the same accumulation (sum / count forms of the mean with the count classified); C11.R3 exponent and dimension checks; C11.R4 ensure_2d contract; C11.R5 no memory-order flattening, no narrowing of the index arrays; L1. C11.R1 also evaluates the whole returned expression in a small row-major array model for two input shapes with opaque values: numpy's own shape errors (operands that do not broadcast, coordinate vectors of different lengths, impossible reshapes) and a result that is not [time x AM x carrier] / [AM x carrier] are violations; the time coordinate must list the sample index element by element.",
        "floating-point summation order.",
        "finite abstract domain of index-class pairs + term decoding")
 _claim('C14',
@@ -159,7 +159,7 @@ _claim('C16',
        "type checking in an index-space domain over evaluated paths")
 _claim('C17',
        "C17.R1 the occurrence lookup returns index sets in the row space of its argument (a sorted copy has a different "
-       "index space); C17.R2 provenance and range guard of every final assignment, x/y index lists equal by "
+       "index space); C17.R2 provenance of every final assignment and its range guard against the size of the set the tree was built on, x/y index lists equal by "
        "construction, K and the distance bound reach the query; C17.R1 also interprets the return term of _unique_inds on every weak ordering of up to 4 (thorough 5) values: the distinct values, each with exactly its positions; C17.R3 one claimant per candidate and neighbour column (one position among the occurrences, not an equality test on the minimum); C17.R4 a claimant is marked only if its candidate is a member of the column's candidates not matched in an earlier column, that record is extended in every column with exactly the rows marked, the assignment vector is integer typed.",
        "K=1 (scipy returns 1-D arrays); global injectivity is derived by composition of R2-R4, not by a single rule; scipy's cKDTree.query is trusted to honour k and the distance bound.",
        "index-space typing + path conditions of the assignment stores + exhaustive order-pattern interpretation of the lookup routine")
@@ -167,7 +167,7 @@ _claim('C19',
        "C19.R1 the three ensure_* routines folded on 11 representative shapes against their documented contract, every returned array is its own input through layout-only operations; "
        "C19.R2 canonicalisation precedes every other use of the signal; C19.R3 flow-sensitive interprocedural "
        "alias/mutation analysis over every public function and method of the numeric modules; C19.R4 length checks "
-       "present, and the conditions of ensure_equal_dims evaluated concretely on 14 shape lists raise exactly on a mismatch, L1; C19.R5 no mutable module state.",
+       "present, and the conditions of ensure_equal_dims evaluated concretely on 14 shape lists raise exactly on a mismatch, L1; C19.R5 no mutable module state; C19.R6 no public routine flattens or reshapes an array in memory order (order K/A/F), so a transposed or Fortran-ordered argument gives the same result.",
        "value equality beyond 'same canonical input'; read-only array flags.",
        "shape-class evaluation of path conditions + alias/freshness/mutation dataflow with summaries")
 
